@@ -139,17 +139,11 @@ class PNFA(object):
         self.nullable_loop = None
         self.final = self._new(("final",))
         items = list(p)
-        if items and items[0] == (sc.AT, sc.AT_BEGINNING):
-            items = items[1:]           # leading ^ is a no-op under .match()
-            self.anchored_start = True
-        else:
-            self.anchored_start = False
-        self.anchored_end = False
-        if items and items[-1][0] is sc.AT and items[-1][1] in (sc.AT_END, sc.AT_END_STRING):
-            self.anchored_end = True
-            items = items[:-1]
+        self.anchored_start = bool(items) and items[0] == (sc.AT, sc.AT_BEGINNING)
         self.start = self._seq(items, self.final)
         self._build_macro()
+        # end-anchored iff no acceptance is possible before the end of the input
+        self.anchored_end = all(t != "ACC" for lst in self.macro.values() for (tags, t) in lst)
 
     def _new(self, k):
         self.kind[self.n] = k
@@ -199,7 +193,11 @@ class PNFA(object):
                 tail = self._seq(body, tail)
             return tail
         if op is sc.AT:
-            raise Unsupported("regex: anchor in the middle of a pattern: %r" % (av,))
+            if av in (sc.AT_BEGINNING, sc.AT_BEGINNING_STRING):
+                return self._new(("eps", [(cont, ("at", "begin"))]))
+            if av in (sc.AT_END, sc.AT_END_STRING):
+                return self._new(("eps", [(cont, ("at", "end"))]))
+            raise Unsupported("regex: unsupported anchor %r" % (av,))
         raise Unsupported("regex: unsupported construct %s" % (op,))
 
     def _build_macro(self):
@@ -207,29 +205,40 @@ class PNFA(object):
         target in char states U {'ACC'}; list order = backtracking priority"""
         self.macro = {}
 
-        def closure(s):
+        def closure(s, is_init):
             out = []
 
-            def dfs(q, tags, onpath):
+            def dfs(q, tags, onpath, need_end):
                 k = self.kind[q]
                 if k[0] == "char":
-                    out.append((tuple(tags), q))
+                    if not need_end:            # nothing can be consumed after '$'
+                        out.append((tuple(tags), q))
                     return
                 if k[0] == "final":
-                    out.append((tuple(tags), "ACC"))
+                    out.append((tuple(tags), "ACC$" if need_end else "ACC"))
                     return
                 if q in onpath:
                     # epsilon cycle: a loop whose body can match the empty string
                     self.nullable_loop = q
                     return
                 for tgt, tag in k[1]:
-                    dfs(tgt, tags + ([tag] if tag else []), onpath | {q})
-            dfs(s, [], frozenset())
+                    ne = need_end
+                    t2 = tags
+                    if tag is not None and tag[0] == "at":
+                        if tag[1] == "begin":
+                            if not is_init:
+                                continue        # '^' after something was consumed never holds (no MULTILINE)
+                        else:
+                            ne = True
+                    elif tag:
+                        t2 = tags + [tag]
+                    dfs(tgt, t2, onpath | {q}, ne)
+            dfs(s, [], frozenset(), False)
             return out
-        self.macro["init"] = closure(self.start)
+        self.macro["init"] = closure(self.start, True)
         for q, k in list(self.kind.items()):
             if k[0] == "char":
-                self.macro[q] = closure(k[2])
+                self.macro[q] = closure(k[2], False)
 
     def cs(self, q):
         return self.kind[q][1]
@@ -285,11 +294,11 @@ def sccs(nodes, succ):
 
 # ---------- ambiguity on the line graph of macro transitions ---------------------------------------------
 def _line_graph(p):
-    edges = [(s, i) for s, lst in p.macro.items() for i, (tags, t) in enumerate(lst) if t != "ACC"]
+    edges = [(s, i) for s, lst in p.macro.items() for i, (tags, t) in enumerate(lst) if t not in ("ACC", "ACC$")]
     tgt = dict(((s, i), p.macro[s][i][1]) for (s, i) in edges)
     out = {}
     for e in edges:
-        out[e] = [(tgt[e], j) for j, (tags, t) in enumerate(p.macro[tgt[e]]) if t != "ACC"]
+        out[e] = [(tgt[e], j) for j, (tags, t) in enumerate(p.macro[tgt[e]]) if t not in ("ACC", "ACC$")]
     lab = dict((e, p.cs(tgt[e])) for e in edges)
     init = [e for e in edges if e[0] == "init"]
     reach = set(init)
@@ -300,7 +309,7 @@ def _line_graph(p):
             if f not in reach:
                 reach.add(f)
                 dq.append(f)
-    canacc = set(e for e in edges if any(t == "ACC" for tags, t in p.macro[tgt[e]]))
+    canacc = set(e for e in edges if any(t in ("ACC", "ACC$") for tags, t in p.macro[tgt[e]]))
     pred = defaultdict(list)
     for e in edges:
         for f in out[e]:
@@ -440,36 +449,41 @@ def ambiguity(p, max_triples=3_000_000):
 # ---------- language comparison under .match semantics ------------------------------------------------------
 def _dfa(p):
     def step(S, ch):
-        return frozenset(t for s in S for (tags, t) in p.macro[s] if t != "ACC" and ch in p.cs(t))
+        return frozenset(t for s in S for (tags, t) in p.macro[s] if t not in ("ACC", "ACC$") and ch in p.cs(t))
 
-    def acc_here(S):
+    def acc_end(S):
+        """accepts if the input ends here"""
+        return any(t in ("ACC", "ACC$") for s in S for (tags, t) in p.macro[s])
+
+    def acc_any(S):
+        """accepts whatever follows (unanchored acceptance under .match)"""
         return any(t == "ACC" for s in S for (tags, t) in p.macro[s])
-    return step, acc_here
+    return step, acc_end, acc_any
 
 
 def compare(p1, p2, alphabet, mode="equiv", limit=500000):
     """mode 'equiv': L(p1) == L(p2); mode 'incl': L(p1) subset of L(p2).  -> (ok, witness_word, explored)"""
-    s1, a1 = _dfa(p1)
-    s2, a2 = _dfa(p2)
+    s1, e1, a1 = _dfa(p1)
+    s2, e2, a2 = _dfa(p2)
 
-    def norm(p, S, acc):
-        if S != "TRUE" and acc(S) and not p.anchored_end:
+    def norm(S, acc_any):
+        if S != "TRUE" and acc_any(S):
             return "TRUE"       # unanchored end under .match: once accepted, accepted whatever follows
         return S
-    st = (norm(p1, frozenset(["init"]), a1), norm(p2, frozenset(["init"]), a2))
+    st = (norm(frozenset(["init"]), a1), norm(frozenset(["init"]), a2))
     seen = {st}
     dq = deque([(st, "")])
     while dq:
         (A, B), w = dq.popleft()
-        accA = A == "TRUE" or a1(A)
-        accB = B == "TRUE" or a2(B)
+        accA = A == "TRUE" or e1(A)
+        accB = B == "TRUE" or e2(B)
         if mode == "equiv" and accA != accB:
             return False, w, len(seen)
         if mode == "incl" and accA and not accB:
             return False, w, len(seen)
         for ch in alphabet:
-            A2 = "TRUE" if A == "TRUE" else norm(p1, s1(A, ch), a1)
-            B2 = "TRUE" if B == "TRUE" else norm(p2, s2(B, ch), a2)
+            A2 = "TRUE" if A == "TRUE" else norm(s1(A, ch), a1)
+            B2 = "TRUE" if B == "TRUE" else norm(s2(B, ch), a2)
             if mode == "incl" and A2 != "TRUE" and not A2:
                 continue
             if (A2, B2) not in seen:
@@ -490,26 +504,38 @@ def included(p1, p2, alphabet):
 
 def accepts(p, word):
     """membership of a concrete word under .match semantics (used for table-membership obligations)"""
-    step, acc = _dfa(p)
+    step, acc_end, acc_any = _dfa(p)
     S = frozenset(["init"])
-    if acc(S) and not p.anchored_end:
+    if acc_any(S):
         return True
     for c in word:
         ch = ord(c)
         if ch not in p.U:
-            # map to a representative with the same signature is not possible here: demand exact alphabet
             raise Unsupported("accepts(): character %r outside the representative alphabet" % c)
         S = step(S, ch)
         if not S:
             return False
-        if acc(S) and not p.anchored_end:
+        if acc_any(S):
             return True
-    return acc(S)
+    return acc_end(S)
 
 
 # ---------- prioritised parse correctness -------------------------------------------------------------------
 def _named(p, tags):
     return frozenset((k, p.groupnames[g]) for (k, g) in tags if g in p.groupnames)
+
+
+class _AnchoredView(object):
+    """view of an end-anchored PNFA in which the anchored accept is spelled 'ACC' (parse_check's vocabulary)"""
+
+    def __init__(self, p):
+        self.p = p
+        self.groupnames = p.groupnames
+        self.anchored_end = p.anchored_end
+        self.macro = dict((s, [(tags, "ACC" if t == "ACC$" else t) for (tags, t) in lst]) for s, lst in p.macro.items())
+
+    def cs(self, q):
+        return self.p.cs(q)
 
 
 def parse_check(R, L, alphabet, limit=3_000_000):
@@ -518,6 +544,7 @@ def parse_check(R, L, alphabet, limit=3_000_000):
     R assigns the same named-group spans as L."""
     if not L.anchored_end or not R.anchored_end:
         raise Unsupported("parse_check: both patterns must be end-anchored")
+    R, L = _AnchoredView(R), _AnchoredView(L)
     # 1) a higher-priority accepting R-path with different named tags than the R-path following L
     start = ("init", "init", "init", 0, False)
     seen = {start}
